@@ -111,6 +111,62 @@ def periodic_bucket(ctx, res, rng, n):
                                        case=dict(journal=text), observed=bad, required='accepted; each forecast transaction = the posting and %s %s on %s' % (-a.value, a.sym, bucket)))
 
 
+def bucket_redeclared(ctx, res, rng, n):
+    """the bucket is the account of the LATEST declaration, in whichever of the three ways each was written (`A`, `bucket`,
+    `account .. / default`), also across an included file and a second -f file: every one-posting transaction is
+    balanced against the bucket in force where it stands, with the exact negation"""
+    for j in range(n):
+        k = rng.randrange(2, 5)
+        buckets = rng.sample(['Assets:B1', 'Assets:B2', 'Equity:B3', 'Liabilities:B4', 'Assets:B1:Sub'], k)
+        styles = [rng.randrange(3) for _ in range(k)]
+        parts, want = [], []
+        idx = 0
+        for b, st_ in zip(buckets, styles):
+            seg = X.bucket_directive(b, st_)
+            for _ in range(rng.randrange(1, 4)):
+                s_ = rng.choice(list(X.COMMS))
+                a = X.Amt.rand(rng, s_)
+                if rng.random() < 0.25:
+                    y = rng.choice([c for c in X.COMMS if c != s_])
+                    cost = X.Amt(F(rng.randrange(1, 9999), 100), 2, y)
+                    seg += '2021/01/%02d x%d\n    Expenses:E%d    %s @ %s\n\n' % (1 + idx % 28, idx, idx, a.text(), cost.text())
+                    want.append((idx, b, y, -cost.value * a.value))
+                else:
+                    seg += '2021/01/%02d x%d\n    Expenses:E%d    %s\n\n' % (1 + idx % 28, idx, idx, a.text())
+                    want.append((idx, b, s_, -a.value))
+                idx += 1
+            parts.append(seg)
+        layout = rng.randrange(3)
+        main = ctx.path('C02_rebucket.dat')
+        args = ['-f', main]
+        if layout == 0 or len(parts) < 2:
+            open(main, 'w').write(''.join(parts))
+        elif layout == 1:
+            open(ctx.path('C02_rebucket_inc.dat'), 'w').write(parts[1])
+            open(main, 'w').write(parts[0] + 'include C02_rebucket_inc.dat\n\n' + ''.join(parts[2:]))
+        else:
+            open(main, 'w').write(parts[0])
+            open(ctx.path('C02_rebucket_2.dat'), 'w').write(''.join(parts[1:]))
+            args += ['-f', ctx.path('C02_rebucket_2.dat')]
+        st, out, err = lib.run_ledger(args + ['reg', '--empty', '--format', '%(payee)|%(account)|%(verif_rational(amount))\n'])
+        res.evaluations += 1
+        res.count('bucket-redeclared:%d-declarations:layout-%d' % (k, layout))
+        res.nontrivial.add('rebucket:' + ''.join(parts))
+        rows = [l.split('|') for l in out.decode('utf-8', 'replace').split('\n') if l.count('|') == 2]
+        bad = None
+        if st != 0:
+            bad = 'rejected: ' + err.decode('utf-8', 'replace')[-200:]
+        else:
+            for i, b, sym, val in want:
+                got = [(r[1], X.canon_amount(r[2])) for r in rows if r[0] == 'x%d' % i and not r[1].startswith('Expenses:E')]
+                if len(got) != 1 or got[0][0] != b or got[0][1] is None or got[0][1][1] != val or (val != 0 and got[0][1][0] != sym):
+                    bad = 'x%d: balancing posting %s, required %s %s on %s' % (i, got, val, sym, b)
+                    break
+        if bad:
+            res.violations.append(dict(key='bucket-not-the-latest-declaration', desc='one-posting transactions under %d bucket declarations (%s): %s' % (k, ', '.join('%s as %s' % (b, ['A', 'bucket', 'account/default'][s_]) for b, s_ in zip(buckets, styles)), bad),
+                                       case=dict(journal='\n; ---- next part\n'.join(parts), layout=layout), observed=bad, required='each balanced against the bucket declared last before it'))
+
+
 def run(ctx, n_override=None):
     rng = ctx.rng
     res = lib.Result()
@@ -208,6 +264,7 @@ def run(ctx, n_override=None):
                     res.violations.append(dict(key='null-fill-row-count', desc='%d rows on the elided account for %d commodities' % (nrows, ncomm),
                                                case=dict(journal=text, xact=i), observed=str(nrows), required=str(ncomm)))
     periodic_bucket(ctx, res, rng, max(6, n // 20))
+    bucket_redeclared(ctx, res, rng, max(12, n // 10))
     return res
 
 
